@@ -22,7 +22,64 @@ struct Runner {
   int nontrivial = 0, masked = 0, judged = 0;
   void fail(const std::string& kind, const json& d) { if (fails.size() < 6) fails.push_back({{"kind", kind}, {"step", 0}, {"detail", d}}); }
 
+  // C17: Extrude(polygon, height, nDivisions, twist, scaleTop): p is inside iff 0 < z < height and the layer map
+  // "twist, then scale" pulled back lands inside the polygon
+  void runExtrude(const json& c, uint32_t seed, int npoints) {
+    std::mt19937 rng(seed);
+    const double twist = c["twist"].get<double>(), sx = c["scale"][0].get<double>() / 10, sy = c["scale"][1].get<double>() / 10;
+    const std::string shape = c["shape"];
+    SimplePolygon poly;
+    if (shape == "rect") poly = {{-2, -0.5}, {2, -0.5}, {2, 0.5}, {-2, 0.5}};
+    else if (shape == "lshape") poly = {{-1, -1}, {1.5, -1}, {1.5, 0}, {0, 0}, {0, 1.2}, {-1, 1.2}};
+    else poly = {{1, 0.5}, {3, 0.5}, {3, 1.5}, {1, 1.5}};
+    const double H = 2.0;
+    const int nDiv = 96;
+    Manifold m = Manifold::Extrude({poly}, H, nDiv, twist, {sx, sy});
+    if (m.Status() != Manifold::Error::NoError) { fail("extrude:status", {{"status", ErrName(m.Status())}}); return; }
+    const MeshGL64 g = m.GetMeshGL64();
+    auto inPoly = [&](vec2 q) {
+      bool in = false;
+      for (size_t i = 0, j = poly.size() - 1; i < poly.size(); j = i++)
+        if ((poly[i].y > q.y) != (poly[j].y > q.y) && q.x < (poly[j].x - poly[i].x) * (q.y - poly[i].y) / (poly[j].y - poly[i].y) + poly[i].x) in = !in;
+      return in;
+    };
+    auto analytic = [&](vec3 p) -> int {   // 1 inside, 0 outside, -1 undecided (too close to the boundary)
+      const double margin = 0.04;
+      int votes = 0, n = 0;
+      for (double dz : {-margin, 0.0, margin})
+        for (double dx : {-margin, 0.0, margin})
+          for (double dy : {-margin, 0.0, margin}) {
+            const double z = p.z + dz;
+            bool in = false;
+            if (z > 0 && z < H) {
+              const double a = z / H, phi = a * twist * 3.14159265358979323846 / 180.0;
+              const double kx = 1 + (sx - 1) * a, ky = 1 + (sy - 1) * a;
+              if (kx > 1e-9 && ky > 1e-9) {
+                // layer map: q = S * R(phi) * p0  =>  p0 = R(-phi) * S^-1 * q
+                const double ux = (p.x + dx) / kx, uy = (p.y + dy) / ky;
+                in = inPoly({std::cos(phi) * ux + std::sin(phi) * uy, -std::sin(phi) * ux + std::cos(phi) * uy});
+              }
+            }
+            votes += in;
+            n++;
+          }
+      return votes == n ? 1 : votes == 0 ? 0 : -1;
+    };
+    std::uniform_real_distribution<double> X(-4.5, 4.5), Z(-0.3, H + 0.3);
+    for (int i = 0; i < npoints; i++) {
+      vec3 p(X(rng), X(rng), Z(rng));
+      const int want = analytic(p);
+      if (want < 0) { masked++; continue; }
+      judged++;
+      const double w = WindingAt(g, p);
+      if (std::lround(w) != want || std::fabs(w - std::round(w)) > 1e-6)
+        fail("extrude:classification", {{"p", {p.x, p.y, p.z}}, {"winding", w}, {"want", want}, {"twist", twist}, {"scaleTop", {sx, sy}}, {"shape", shape}});
+    }
+    nontrivial = 1;
+  }
+
   void run(const json& c, uint32_t seed, int npoints) {
+    if (c.contains("k") && c["k"] == "extrude") { runExtrude(c, seed, npoints * 3); return; }
     std::mt19937 rng(seed);
     std::uniform_real_distribution<double> A(0, 360), S(-1, 1);
     const std::string pose = c["pose"];
